@@ -1161,6 +1161,13 @@ func (h *histRun) checkQuiescent(final bool) {
 		h.viol(Viol{Prop: "C11", T: now, Sig: "connLeak", Msg: s})
 	}
 	h.g.ConnLeaks = nil
+	h.g.mu.Lock()
+	dead := h.g.DeadConnReqs
+	h.g.DeadConnReqs = nil
+	h.g.mu.Unlock()
+	for _, s := range dead {
+		h.viol(Viol{Prop: "C11", T: now, Sig: "requestAfterRelease", Msg: s})
+	}
 }
 
 // unsubOverlap reports whether a successful unsubscribe on the request's rid
